@@ -21,7 +21,7 @@ RULE = ("Hypothesis: rational means, covariances Sigma = B B^T + diag(d) with sm
         "Schur complement; exact Schur complement for singular Sigma), requested order, tolerance scaled by cond(Sigma_XX); "
         "marginal must be the exact index selection; metamorphic: conditional(Y,[],[]) == marginal(Y), "
         "marginal(S).marginal(T) == marginal(S[T]), two-step == joint conditioning, and the same query repeated on the same "
-        "object with X (and x) permuted. Non-trivial = |Y|>=2 not sorted, or |X|>=2 not sorted.")
+        "object with X (and x) permuted. Non-trivial = |Y|>=2 not sorted, or |X|>=2 not sorted. Also: per-coordinate power-of-two units (2^-300..2^85) with an equilibrated tolerance, int64 covariances, arithmetic-progression ranges, covariances with p^2 entries in the wrong shape.")
 ASSUMPTIONS = [
     "oracle: exact rational linear algebra (/verif/harness/exact.py), precision-matrix form of the conditional",
     "cases with cond_inf(Sigma_XX) > 1e8 are discarded, not failed; tolerance 100*eps*n*cond*norms",
